@@ -209,12 +209,13 @@ def liveApps (h : History) (rnd : Nat) (a : Addr) (gt : Cidx) (withParams : Bool
 /-! ### page rules -/
 
 /-- the limit / byte-cap rule of a box page: how many leading items of a sorted list are returned.
-    Always at least one item (when there is one); stops before the item that would exceed `maxb`; stops at `limit`. -/
+    Always at least one item (when there is one); stops before the item that would exceed `maxb`; stops at `limit`
+    (`limit = 0` = no limit on the number of items, as in the DB layer). -/
 def kvTrim {α : Type} (sz : α → Nat) (maxb limit : Nat) : List α → Nat → Nat → Nat
   | [], i, _ => i
   | x :: xs, i, acc =>
     if acc + sz x > maxb && i > 0 then i
-    else if i + 1 ≥ limit then i + 1
+    else if limit > 0 && i + 1 ≥ limit then i + 1
     else kvTrim sz maxb limit xs (i + 1) (acc + sz x)
 
 def kvItemSize (vals : Bool) (it : Key × Bytes) : Nat :=
@@ -229,7 +230,6 @@ def kvView (vals : Bool) (it : Key × Bytes) : Key × Option Bytes :=
   (it.1, if vals then some it.2 else none)
 
 def pageKv (h : History) (rnd : Nat) (pfx cursor : Key) (limit maxb : Nat) (vals : Bool) : KvPage :=
-  if limit = 0 then ⟨[], false⟩ else
   let live := liveKv h rnd pfx cursor
   let n := kvTrim (kvItemSize vals) maxb limit live 0 0
   ⟨(live.take n).map (kvView vals), decide (n < live.length)⟩
